@@ -11,7 +11,7 @@ import traceback
 
 HERE = os.path.dirname(os.path.abspath(__file__))
 REPO = os.environ.get('KLEPTO_VERIF_REPO', '/repo')
-EVID = os.path.join(HERE, 'evidence')
+EVID = os.environ.get('VERIF_EVIDENCE_DIR') or os.path.join(HERE, 'evidence')   # override only for self-tests against seeded copies
 REPLAYS = os.path.join(EVID, 'replay')
 
 EXIT_OK, EXIT_VIOLATION, EXIT_INCONCLUSIVE = 0, 1, 2
